@@ -32,6 +32,8 @@ type Obligation struct {
 	// Syntactic counts the paths on which the obligation reduced to `true` under the polynomial
 	// normal form and the path substitution, so that no solver query was needed.
 	Syntactic int             `json:"syntactic"`
+	// RawConfirmed counts the paths on which the solver re-proved the obligation in raw form.
+	RawConfirmed int          `json:"raw_confirmed"`
 	Model   map[string]string `json:"model,omitempty"`
 	Reason  string            `json:"reason,omitempty"`
 }
@@ -64,6 +66,10 @@ type Options struct {
 	// makes the obligation inconclusive.
 	CrossSolver string
 	Trace      bool
+	// NoRawRecheck disables the second, raw-form solver query of validity obligations.
+	NoRawRecheck bool
+	// RawTimeoutMs is the timeout of raw-form queries (default 5000).
+	RawTimeoutMs int
 }
 
 // Engine owns the solver and explores harnesses.
@@ -82,7 +88,9 @@ type Engine struct {
 	CrossChecks   int
 	CrossDisagree int
 	SyntacticValid int
+	RawChecks, RawConfirmed, RawUnknown, RawDisagree, RawNodes int
 
+	rawSolver       *Solver
 	fallback        map[string]*Solver
 	FallbackQueries int
 	FallbackDecided int
@@ -183,6 +191,22 @@ func (e *Engine) check(script string, want []string) (Verdict, map[string]string
 	return Unknown, nil
 }
 
+// checkRaw uses a dedicated solver process with a short timeout for the raw-form re-checks.
+func (e *Engine) checkRaw(script string) (Verdict, map[string]string) {
+	if e.rawSolver == nil {
+		t := e.opt.RawTimeoutMs
+		if t == 0 {
+			t = 5000
+		}
+		s, err := NewSolver(e.opt.SolverName, t)
+		if err != nil {
+			return Unknown, nil
+		}
+		e.rawSolver = s
+	}
+	return e.rawSolver.Check(script, nil)
+}
+
 // Close stops solver processes.
 func (e *Engine) Close() {
 	if e.solver != nil {
@@ -194,11 +218,18 @@ func (e *Engine) Close() {
 	for _, f := range e.fallback {
 		f.Close()
 	}
+	if e.rawSolver != nil {
+		e.rawSolver.Close()
+	}
 }
 
 // SolverStats summarises solver usage.
 func (e *Engine) SolverStats() map[string]any {
-	m := map[string]any{"decide_queries": e.DecideQueries, "valid_queries": e.ValidQueries, "seeded_sat": e.SeededSat, "open_sat": e.OpenSat, "syntactic_valid": e.SyntacticValid}
+	m := map[string]any{"decide_queries": e.DecideQueries, "valid_queries": e.ValidQueries, "seeded_sat": e.SeededSat, "open_sat": e.OpenSat, "syntactic_valid": e.SyntacticValid,
+		"raw_checks": e.RawChecks, "raw_confirmed": e.RawConfirmed, "raw_unknown": e.RawUnknown, "raw_disagree": e.RawDisagree, "raw_nodes": e.RawNodes}
+	if e.rawSolver != nil {
+		m["raw_solver_s"] = e.rawSolver.Time.Seconds()
+	}
 	if e.solver != nil {
 		m["solver"] = e.solver.Name
 		m["sat"] = e.solver.Queries[Sat]
@@ -280,6 +311,25 @@ type Run struct {
 	current  string // current actor label (set by harness) for reader-discipline monitoring
 	concrete bool
 	dead     bool
+
+	// genericDraws: every freshly sampled random element is assumed non-zero (a probability-1/q
+	// event is excluded; protocol-level harnesses enable it so that rejection-sampling loops such as
+	// algebrautils.RandomNonIdentity do not fork at every draw). Counted in DrawAssumptions.
+	genericDraws    bool
+	DrawAssumptions int
+}
+
+// AssumeDrawsNonZero makes every subsequently sampled random element carry the assumption ≠ 0.
+func (r *Run) AssumeDrawsNonZero() { r.genericDraws = true }
+
+func (r *Run) drawVar(name string) *Poly {
+	_, existed := r.vars[name]
+	p := r.newVar(name)
+	if r.genericDraws && !r.concrete && (!existed || !r.pathK[Not(pEqZ{p: p}).key()]) {
+		r.DrawAssumptions++
+		r.addPath(Not(pEqZ{p: p}))
+	}
+	return p
 }
 
 type scriptLit struct {
@@ -395,7 +445,7 @@ func (r *Run) addPath(p Pred) {
 // both are implied by the path condition). The rewritten predicate is equivalent to the original
 // one for every assignment satisfying the path; this is self-checked on the path witness.
 func (r *Run) norm(p Pred) Pred {
-	out := p
+	out := fold(p)
 	if len(r.sigma) > 0 {
 		out = out.mapPolys(r.normPoly)
 	}
@@ -857,12 +907,13 @@ func (r *Run) Valid(id string, p Pred) bool {
 		}
 		return true
 	}
+	p0 := p
 	p = r.norm(p)
 	switch p.(type) {
 	case pTrue:
 		o.Syntactic++
 		r.eng.SyntacticValid++
-		return true
+		return r.rawRecheck(o, p0)
 	}
 	r.eng.ValidQueries++
 	o.Queries++
@@ -880,7 +931,7 @@ func (r *Run) Valid(id string, p Pred) bool {
 				return false
 			}
 		}
-		return true
+		return r.rawRecheck(o, p0)
 	case Sat:
 		var mm map[string]string
 		if m != nil {
@@ -891,6 +942,32 @@ func (r *Run) Valid(id string, p Pred) bool {
 	default:
 		worse(o, StInconclusive, "solver unknown on validity query", nil)
 		return false
+	}
+}
+
+// rawRecheck poses the obligation a second time in raw form (path literals and goal exactly as the
+// library computed them). unsat = the solver itself confirms the verdict; unknown = the verdict
+// rests on the normal form only (counted separately); sat = engine mismatch (never a success).
+func (r *Run) rawRecheck(o *Obligation, p0 Pred) bool {
+	if r.eng.opt.NoRawRecheck {
+		return true
+	}
+	script, nodes := r.rawScript([]Pred{Not(p0)})
+	r.eng.RawChecks++
+	r.eng.RawNodes += nodes
+	v, _ := r.eng.checkRaw(script)
+	switch v {
+	case Unsat:
+		r.eng.RawConfirmed++
+		o.RawConfirmed++
+		return true
+	case Sat:
+		r.eng.RawDisagree++
+		worse(o, StInconclusive, "ENGINE-MISMATCH: raw-term query is satisfiable although the normal form says valid", nil)
+		return false
+	default:
+		r.eng.RawUnknown++
+		return true
 	}
 }
 
